@@ -300,8 +300,16 @@ func unI[T integer](op string, a T, signed bool) Res {
 	return Res{Refuse: true} // roots, exp, logs, tanh: float types only
 }
 
+// m1 applies the maths routine of the element type: package math for float64, math32 (the float32 port the Go
+// ecosystem and the library use) for float32.
+func m1[T float](a T, f64 func(float64) float64, f32 func(float32) float32) T {
+	if _, ok := interface{}(a).(float32); ok {
+		return T(f32(float32(a)))
+	}
+	return T(f64(float64(a)))
+}
+
 func unF[T float](op string, a T) Res {
-	x := float64(a)
 	switch op {
 	case "Neg":
 		return Res{V: gNeg(a)}
@@ -310,30 +318,30 @@ func unF[T float](op string, a T) Res {
 	case "Cube":
 		return Res{V: gCube(a)}
 	case "Abs":
-		return Res{V: T(math.Abs(x))}
+		return Res{V: m1(a, math.Abs, math32.Abs)}
 	case "Sign":
 		if a != a {
 			return Res{Skip: true}
 		}
-		return Res{V: gSignR(a)}
+		return Res{V: gSignR(a), Approx: true} // the sign of a zero is a zero of either sign
 	case "Inv":
 		return Res{V: T(1) / a}
 	case "Sqrt":
-		return Res{V: T(math.Sqrt(x)), Approx: true}
+		return Res{V: m1(a, math.Sqrt, math32.Sqrt), Approx: true}
 	case "Cbrt":
-		return Res{V: T(math.Cbrt(x)), Approx: true}
+		return Res{V: m1(a, math.Cbrt, math32.Cbrt), Approx: true}
 	case "InvSqrt":
-		return Res{V: T(1) / T(math.Sqrt(x)), Approx: true}
+		return Res{V: T(1) / m1(a, math.Sqrt, math32.Sqrt), Approx: true}
 	case "Exp":
-		return Res{V: T(math.Exp(x)), Approx: true}
+		return Res{V: m1(a, math.Exp, math32.Exp), Approx: true}
 	case "Log":
-		return Res{V: T(math.Log(x)), Approx: true}
+		return Res{V: m1(a, math.Log, math32.Log), Approx: true}
 	case "Log2":
-		return Res{V: T(math.Log2(x)), Approx: true}
+		return Res{V: m1(a, math.Log2, math32.Log2), Approx: true}
 	case "Log10":
-		return Res{V: T(math.Log10(x)), Approx: true}
+		return Res{V: m1(a, math.Log10, math32.Log10), Approx: true}
 	case "Tanh":
-		return Res{V: T(math.Tanh(x)), Approx: true}
+		return Res{V: m1(a, math.Tanh, math32.Tanh), Approx: true}
 	}
 	panic("bad unary " + op)
 }
